@@ -263,9 +263,14 @@ fn execution(case: &Case) {
             code
         })
         .collect();
+    simplesl::verif_loom::begin_lock_book();
     let handles: Vec<_> = codes.into_iter().map(|code| big(move || run_one(&code))).collect();
     let results: Vec<String> = handles.into_iter().map(|h| h.join().expect("worker panicked")).collect();
     simplesl::verif_loom::set_world(None);
+    // std's RwLock prefers writers; loom's does not model that. A thread that re-takes a cell lock
+    // it is holding deadlocks when another thread asks for the write lock in between
+    let recursive = simplesl::verif_loom::end_lock_book();
+    assert!(recursive == 0, "RECURSIVE LOCK: {recursive} (thread, cell) pair(s) where a thread takes a cell lock it already holds while another thread writes that cell (deadlock under a writer-preferring lock)");
     let outcome = format!("results=[{}] cells=[{}]", results.join(" | "), finals(&env));
     EXECUTIONS.fetch_add(1, Ordering::Relaxed);
     OUTCOMES.lock().unwrap().insert(outcome.clone());
@@ -338,12 +343,16 @@ fn main() {
                 let r = if out.status.success() {
                     stdout.lines().last().and_then(|l| serde_json::from_str::<Value>(l).ok()).ok_or_else(|| format!("no result line: {stdout}"))
                 } else {
-                    let verdict = ["NOT LINEARIZABLE", "NOT ISOLATED", "deadlock", "Deadlock", "Poison", "worker panicked", "/repo/src"].iter().any(|k| stderr.contains(k));
-                    let lines = stderr.lines().filter(|l| l.contains("NOT LINEARIZABLE") || l.contains("NOT ISOLATED") || l.contains("eadlock") || l.contains("panicked") || l.contains("Poison")).take(4).collect::<Vec<_>>().join(" / ");
+                    let verdict = ["NOT LINEARIZABLE", "NOT ISOLATED", "RECURSIVE LOCK", "invalid internal loom state", "deadlock", "Deadlock", "Poison", "worker panicked", "/repo/src"].iter().any(|k| stderr.contains(k));
+                    let lines = stderr.lines().filter(|l| l.contains("NOT LINEARIZABLE") || l.contains("NOT ISOLATED") || l.contains("RECURSIVE LOCK") || l.contains("eadlock") || l.contains("panicked") || l.contains("Poison")).take(4).collect::<Vec<_>>().join(" / ");
                     if !verdict {
                         eprintln!("MACHINERY ERROR: loom harness {} failed without a verdict: exit {:?}: {lines}", idx, out.status.code());
                         std::process::exit(2);
                     }
+                    // loom's RwLock keeps its readers as a set of threads: it reaches this state exactly
+                    // when one thread holds two guards of one lock at once (a recursive acquisition,
+                    // which deadlocks under std's writer-preferring lock when a writer queues in between)
+                    let lines = if stderr.contains("invalid internal loom state") { format!("RECURSIVE LOCK: a thread took a cell lock it was already holding (loom: invalid internal loom state) / {lines}") } else { lines };
                     Err(format!("exit {:?}: {lines}", out.status.code()))
                 };
                 results.lock().unwrap().push((idx, r));
@@ -404,7 +413,7 @@ fn main() {
         },
         "assumptions": [
             "scheduling points are the lock operations of cells (the crates contain no unsafe code); for harnesses whose runs share no cell every order of these operations across threads is explored (a world variable makes them conflict), so state shared outside cells shows as a difference from the result each run gives alone; code between two consecutive cell accesses of one thread is not interleaved",
-            "loom does not model writer-preferring fairness of RwLock: deadlocks that need a queued writer between two recursive readers are not explored",
+            "loom does not model the writer preference of std's RwLock; the facade therefore keeps a book of lock acquisitions per execution and a thread that re-takes a cell lock it holds, in an execution where another thread writes that cell, is reported (such a pair deadlocks when the writer queues between the two acquisitions)",
             "lazy_static first-use races are std::sync::Once's responsibility"
         ],
         "wall_s": start.elapsed().as_secs_f64(),
